@@ -1,15 +1,13 @@
 import Hv.Driver.Core
 import Hv.Qcow2
 import Hv.Qcow2Spec
+import Hv.Qcow2Stream
 import Hv.Prim.Inflate
 namespace Hv.Driver
 open Hv
 
-/-- a stream (seek + read) over a QCow2 as a backing `Reader` -/
-def qcowAsReader (q : Qcow2.QCow2) (align : Nat) : Qcow2.Reader := fun off n => do
-  let (_, s) ← (AS.init q.size align).seek off .set
-  let (b, _) ← s.read q.read n
-  pure b
+/-- a stream (seek + read) over a QCow2 as a backing `Reader` (`QCow2.asReader`, Hv/Qcow2Stream.lean) -/
+def qcowAsReader (q : Qcow2.QCow2) (align : Nat) : Qcow2.Reader := q.asReader align
 
 /-- layer tokens, base first: `R:<id>` (raw backing file) or `L:<img>:<data|->:<flags>` (flags: `n` = ALLOW_NO_BACKING_FILE, `x` = no backing argument given) -/
 def qcowChain (st : St) (align : Nat) (layers : List String) : Except Err (Option Qcow2.QCow2) := do
@@ -31,17 +29,23 @@ def qcowChain (st : St) (align : Nat) (layers : List String) : Except Err (Optio
     | _ => throw .other
   pure top
 
-/-- `conformantb`, evaluated only when that is cheap: the cached L1 table was readable and the image has at most 2^20
-    guest clusters (multi-terabyte images of C13 and arbitrary headers of C12 are reported as `wf=0` = "not shown to be
-    inside the hypotheses" instead of being scanned) -/
-def qcowWf (q : Qcow2.QCow2) : Bool :=
+/-- `conformantToB q (roundUp size align)` — the hypothesis of `qcow2_stream_correct` for the stream buffer size
+    `align` (it implies `Conformant q`, the hypothesis of `qcow2_read_correct`: `ConformantTo.conformant`) —
+    evaluated only when that is cheap: the cached L1 table was readable and there are at most 2^20 guest clusters
+    to look at (multi-terabyte images of C13 and arbitrary headers of C12 are reported as `wf=0` = "not shown to
+    be inside the hypotheses" instead of being scanned) -/
+def qcowWf (q : Qcow2.QCow2) (align : Nat) : Bool :=
   match q.l1 with
   | .error _ => false
-  | .ok _ => if q.nClusters ≤ 2 ^ 20 then q.conformantb else false
+  | .ok _ =>
+    if align = 0 then false else
+    let lim := Qcow2.roundUp q.size align
+    if (q.withSize lim).nClusters ≤ 2 ^ 20 then q.conformantToB lim else false
 
 /-- like `qcowChain`; also returns, for the top layer, the backing content the specification is evaluated over
     (as a `File`: a raw backing file, or the guest-visible disk `asFile` of the qcow2 layer below; empty when the
-    layer has no backing) and whether every layer that contributes is `Conformant` (`conformantb`) -/
+    layer has no backing) and whether every layer that contributes is conformant up to the end of the
+    last stream buffer, `ConformantTo q (roundUp size align)` (`qcowWf`) -/
 def qcowChainSpec (st : St) (align : Nat) (layers : List String) : Except Err (Option (Qcow2.QCow2 × File × Bool)) := do
   let empty : File := ⟨0, fun _ => 0⟩
   let mut backing : Option Qcow2.Reader := none
@@ -62,7 +66,7 @@ def qcowChainSpec (st : St) (align : Nat) (layers : List String) : Except Err (O
       let bk := if flags.contains 'x' then none else backing
       let q ← Qcow2.open f df bk allow Inflate.rawInflate
       let b := if q.backing.isSome then bfile else empty
-      let wf := (if q.backing.isSome then wfBelow else true) && qcowWf q
+      let wf := (if q.backing.isSome then wfBelow else true) && qcowWf q align
       top := some (q, b, wf)
       backing := some (qcowAsReader q align)
       bfile := q.asFile b
@@ -114,6 +118,25 @@ def qcow2Cmd (st : St) : List String → String
       | .ok none => "bad-args"
       | .error e => s!"err {e}"
     | _, _ => "bad-args"
+  -- is the snapshot view inside the hypotheses of `snapshot_view_independent`? (`snapImage`: the snapshot's L1
+  -- table in the header fields the specification reads)
+  | "qcow2.snapwf" :: align :: idx :: layers =>
+    match align.toNat?, idx.toNat? with
+    | some a, some i =>
+      match qcowChainSpec st a layers with
+      | .ok (some (q, _, _)) =>
+        -- the layers below the top one (they serve both views through the shared backing handle)
+        let below := match qcowChainSpec st a layers.dropLast with | .ok (some (_, _, w)) => w | _ => true
+        let wfBelow := if q.backing.isSome then below else true
+        match Qcow2.readSnapshots q.fh q.nbSnapshots q.snapshotsOffset with
+        | .ok snaps =>
+          match snaps[i]? with
+          | some s => s!"ok wf={if wfBelow && qcowWf (q.snapImage s) a then 1 else 0}"
+          | none => "err index"
+        | .error e => s!"err {e}"
+      | .ok none => "bad-args"
+      | .error e => s!"err {e}"
+    | _, _ => "bad-args"
   | "qcow2.snap" :: align :: idx :: nl :: rest =>
     match align.toNat?, idx.toNat?, nl.toNat? with
     | some a, some i, some k =>
@@ -123,8 +146,8 @@ def qcow2Cmd (st : St) : List String → String
         | .ok snaps =>
           match snaps[i]? with
           | some s =>
-            let l1 := (q.fh.readExact s.l1Offset (8 * s.l1Size)).map (fun raw => (Qcow2.decodeBE64 s.l1Size raw).toArray)
-            let q' := { q with l1 := l1 }
+            -- `QCow2Snapshot.open()`: the same object with the snapshot's L1 table, and a fresh stream state
+            let q' := q.snapOpen s
             runStream q'.read q'.size a (rest.drop k)
           | none => "err index"
         | .error e => s!"err {e}"
